@@ -303,6 +303,10 @@ def e2e_script_one(chk, sseed, directed=False, ratio=None):
         ratios = base.choice([{"wipe_count_ratio": "0.3"}, {"wipe_size_ratio": "0.3"}, {"wipe_count_ratio": "0.5", "wipe_size_ratio": "0.5"}])
         if ratio is not None:
             ratios = {"wipe_count_ratio": str(ratio)}
+    elif directed == "grow-rollback":
+        # V1, V2 = V1 minus a little plus a lot, V1 again: the update stays far below the ratio (a script with a few removals is
+        # written), the way back is far above it (wipe protection: nothing may be removed, by no script either)
+        ratios = {"wipe_count_ratio": "0.25", "wipe_size_ratio": "0"}
     elif directed:
         ratios = {"wipe_size_ratio": "0", "wipe_count_ratio": "0"}   # small worlds reach the default ratios at once
     nrep = base.randint(1, 2) if not directed else 2
@@ -337,6 +341,24 @@ def e2e_script_one(chk, sseed, directed=False, ratio=None):
                 versions.append([evolve_with_removals(r) if directed else common.evolve(hist, r) for r in versions[-1]])
         if directed == "rollback":
             versions = [versions[0], versions[1], versions[0]]
+            fail_one = False
+        if directed == "grow-rollback":
+            import copy
+            from e2e import upstream as _up
+            grown = []
+            for r in versions[1]:
+                g = copy.deepcopy(r)
+                cfg = wa.cfgs[r["url"]]
+                done = False
+                for cn, cs in sorted(g["codenames"].items()):
+                    for comp, cp in sorted(cs["components"].items()):
+                        for arch in sorted(cp.get("binaries", {})):
+                            if not done and arch in cfg["codenames"].get(cn, {}).get(comp, {}).get("arches", []):
+                                n_now = 3 * len(_sc.referenced_pool(g, cfg)) + 5
+                                cp["binaries"][arch] += [_up.gen_pkg(hist, comp, arch, 300 + k) for k in range(n_now)]
+                                done = True
+                grown.append(g)
+            versions = [versions[0], grown, versions[0]]
             fail_one = False
         replay = {"scenario_seed": sseed, "e2e_script": True, "ratios": ratios, "lines": wa.lines, "versions": len(versions),
                   "failing_repository": fail_one, "directed": directed, "ratio": ratio}
@@ -465,6 +487,8 @@ def run(chk, tier, rng):
     for i in range(3 if tier == "quick" else 40):
         for ratio in (0.03, 0.08, 0.15, 0.25, 0.4):
             e2e_script_one(chk, f"C04er-{chk.seed}-{i}", directed="rollback", ratio=ratio)
+    for i in range(3 if tier == "quick" else 40):
+        e2e_script_one(chk, f"C04eg-{chk.seed}-{i}", directed="grow-rollback")
     for i in range(10 if tier == "quick" else 300):
         e2e_script_one(chk, f"C04e-{chk.seed}-{i}")
     for i, (tree, keep) in enumerate(CORPUS):
